@@ -15,6 +15,7 @@ import (
 	"fmt"
 	"math/rand/v2"
 	"sort"
+	"strconv"
 	"strings"
 
 	"mvdan.cc/sh/v3/expand"
@@ -103,7 +104,13 @@ func (e *recEnv) dump() string {
 	return sb.String()
 }
 
-func treeJSON(f *syntax.File) string {
+func treeJSON(f *syntax.File) (out string) {
+	// a tree the interpreter has damaged may not be encodable at all
+	defer func() {
+		if e := recover(); e != nil {
+			out = fmt.Sprintf("!panic:%v", e)
+		}
+	}()
 	var b bytes.Buffer
 	if err := typedjson.Encode(&b, f); err != nil {
 		return "!err:" + err.Error()
@@ -111,7 +118,12 @@ func treeJSON(f *syntax.File) string {
 	return b.String()
 }
 
-func treePrint(f *syntax.File) string {
+func treePrint(f *syntax.File) (out string) {
+	defer func() {
+		if e := recover(); e != nil {
+			out = fmt.Sprintf("!panic:%v", e)
+		}
+	}()
 	var b bytes.Buffer
 	if err := syntax.NewPrinter().Print(&b, f); err != nil {
 		return "!err:" + err.Error()
@@ -322,6 +334,15 @@ func runAlias(s *hxsh.Scratch, r *rand.Rand) aliasCase {
 	return c
 }
 
+func startArg(o hx.Opts) int {
+	if len(o.Args) > 0 {
+		if n, err := strconv.Atoi(o.Args[0]); err == nil {
+			return n
+		}
+	}
+	return 0
+}
+
 func main() {
 	o := hx.ParseArgs()
 	defer hx.Flush()
@@ -329,24 +350,40 @@ func main() {
 	defer s.Close()
 	switch o.Mode {
 	case "gen":
+		// an optional extra argument is the index to resume from after a crash of this process
+		// (a panic in a goroutine of the interpreter cannot be recovered in-process)
+		start := startArg(o)
 		g := hxsh.NewGen(hx.Rand(o.Seed, 29))
 		for i := 0; i < o.N; i++ {
 			src := g.Program(2 + g.R.IntN(9))
+			if i < start {
+				continue
+			}
 			feats := make([]string, 0, len(g.Feats))
 			for f := range g.Feats {
 				feats = append(feats, f)
 			}
 			sort.Strings(feats)
+			hx.Emit(map[string]any{"begin": i, "src": hx.Hex(src)})
+			hx.Flush()
 			hx.Emit(runCase(s, src, "gen", i, feats))
+			hx.Flush()
 		}
 	case "corpus":
+		start := startArg(o)
 		progs, err := hxsh.CorpusPrograms(o.In)
 		if err != nil {
 			hx.Emit(map[string]any{"error": err.Error()})
 			return
 		}
 		for i, src := range progs {
+			if i < start {
+				continue
+			}
+			hx.Emit(map[string]any{"begin": i, "src": hx.Hex(src)})
+			hx.Flush()
 			hx.Emit(runCase(s, src, "corpus", i, nil))
+			hx.Flush()
 		}
 	case "one":
 		// replay: -in FILE holding the program text
